@@ -34,10 +34,13 @@ _HERE = os.path.dirname(os.path.abspath(__file__))
 _ANCHORS: Optional[Set[str]] = None
 
 
-def anchor_names() -> Set[str]:
-    """Identifier-like tokens in the string constants of the analyser's own sources: the function names the rules anchor on."""
-    global _ANCHORS
-    if _ANCHORS is None:
+_RULE_NAMES: Optional[Set[str]] = None
+
+
+def rule_names() -> Set[str]:
+    """Identifier-like tokens in the string constants of the analyser's own sources: the names the rules themselves mention."""
+    global _RULE_NAMES
+    if _RULE_NAMES is None:
         names: Set[str] = set()
         for d, _, fs in os.walk(_HERE):
             for f in fs:
@@ -49,6 +52,15 @@ def anchor_names() -> Set[str]:
                     for n in ast.walk(tree):
                         if isinstance(n, ast.Constant) and isinstance(n.value, str):
                             names.update(re.findall(r"[A-Za-z_][A-Za-z0-9_]*", n.value))
+        _RULE_NAMES = names
+    return _RULE_NAMES
+
+
+def anchor_names() -> Set[str]:
+    """The names the rules mention plus the frozen vocabulary of the reference tree."""
+    global _ANCHORS
+    if _ANCHORS is None:
+        names: Set[str] = set(rule_names())
         # the vocabulary of the reference tree (tools/freeze_vocabulary.py): helpers that existed when the rules were confirmed
         try:
             import json
@@ -628,3 +640,74 @@ def dehoist_chains(tree: ast.AST) -> int:
                 if changed:
                     break
     return n_done
+
+
+# ------------------------------------------------------------------------------------------------------------------ new constants
+def _literal(e: ast.AST) -> bool:
+    """A value that can be repeated at every use: constants, enum members / attribute chains, and tuples / lists / sets / dicts /
+    frozenset(...) of those."""
+    if isinstance(e, ast.Constant) or _pure(e):
+        return True
+    if isinstance(e, (ast.Tuple, ast.List, ast.Set)):
+        return all(_literal(x) for x in e.elts)
+    if isinstance(e, ast.Dict):
+        return all(k is not None and _literal(k) and _literal(v) for k, v in zip(e.keys, e.values))
+    if isinstance(e, ast.Call) and isinstance(e.func, ast.Name) and e.func.id in ("frozenset", "tuple", "set") and len(e.args) == 1 and not e.keywords:
+        return _literal(e.args[0])
+    if isinstance(e, ast.UnaryOp) and isinstance(e.op, ast.USub):
+        return _literal(e.operand)
+    if isinstance(e, ast.BinOp) and isinstance(e.op, (ast.Add, ast.Sub, ast.Mult, ast.Pow)):
+        return _literal(e.left) and _literal(e.right)
+    return False
+
+
+def inline_new_constants(trees: Dict[str, ast.Module]) -> List[str]:
+    """A module-level name that is bound once to a literal, is not part of the reference vocabulary, is not named by a rule and is
+    not imported anywhere is a constant somebody gave a name to ("move the list of accepted states to a module constant"): its
+    uses are replaced by the literal and the binding is dropped."""
+    anchors = anchor_names()
+    imported: Set[str] = set()
+    for tree in trees.values():
+        for n in ast.walk(tree):
+            if isinstance(n, ast.ImportFrom):
+                imported.update(a.name for a in n.names)
+            elif isinstance(n, ast.Attribute):
+                imported.add(n.attr)  # module.NAME style access
+    done: List[str] = []
+    for path, tree in trees.items():
+        for st in list(tree.body):
+            tgt = st.targets[0] if isinstance(st, ast.Assign) and len(st.targets) == 1 else (
+                st.target if isinstance(st, ast.AnnAssign) and st.value is not None else None)
+            if not isinstance(tgt, ast.Name) or tgt.id in anchors or tgt.id in imported or tgt.id.startswith("__") or not _literal(st.value):
+                continue
+            nm = tgt.id
+            stores = [x for x in ast.walk(tree) if isinstance(x, ast.Name) and x.id == nm and not isinstance(x.ctx, ast.Load)]
+            if len(stores) != 1 or any(isinstance(x, ast.Global) and nm in x.names for x in ast.walk(tree)):
+                continue
+            # names used by the literal must mean the same thing at every use: only module-level names (imports, classes), never
+            # shadowed by a parameter or local of the using function
+            lit_names = {x.id for x in ast.walk(st.value) if isinstance(x, ast.Name)}
+            shadowed = False
+            for f in ast.walk(tree):
+                if isinstance(f, (ast.FunctionDef, ast.AsyncFunctionDef, ast.Lambda)):
+                    uses_here = any(isinstance(x, ast.Name) and x.id == nm for x in ast.walk(f))
+                    if uses_here:
+                        local = {a.arg for a in f.args.posonlyargs + f.args.args + f.args.kwonlyargs} | {
+                            x.id for x in ast.walk(f) if isinstance(x, ast.Name) and not isinstance(x.ctx, ast.Load)}
+                        if local & (lit_names | {nm}):
+                            shadowed = True
+            if shadowed:
+                continue
+            value = st.value
+
+            class R(ast.NodeTransformer):
+                def visit_Name(self, node):
+                    if node.id == nm and isinstance(node.ctx, ast.Load):
+                        return ast.copy_location(copy.deepcopy(value), node)
+                    return node
+
+            tree.body.remove(st)
+            R().visit(tree)
+            ast.fix_missing_locations(tree)
+            done.append(f"{path.rsplit('/', 1)[-1]}:{nm}")
+    return done
